@@ -12,7 +12,6 @@ import (
 	"os"
 	"reflect"
 	"runtime"
-	"strconv"
 	"sync"
 	"sync/atomic"
 	"time"
@@ -105,24 +104,31 @@ type Sched struct {
 	// scheduler is active (pure in-memory harnesses); thread identity then needs no goroutine id.
 	Exclusive bool
 	running   *thread
+	// quiet: decisions are not offered to the chooser (default choice 0). The harness
+	// brackets the part of an execution whose interleavings matter with SetExplore.
+	quiet     bool
+	alive     int // controlled threads that have not finished
+	fastSteps int
 }
+
+// SetExplore switches exploration of scheduling decisions on or off for the active
+// scheduler (callable from a controlled thread). While off, the default choice is taken
+// at every point and no alternative is recorded, so set-up/tear-down code costs no search.
+func SetExplore(on bool) {
+	if s := active.Load(); s != nil {
+		s.quiet = !on
+	}
+}
+
+// StartQuiet makes the scheduler start with exploration switched off.
+func (s *Sched) StartQuiet() { s.quiet = true }
+
 
 var active atomic.Pointer[Sched]
 
 type abortSignal struct{}
 
-func goid() uint64 {
-	var buf [48]byte
-	n := runtime.Stack(buf[:], false)
-	// "goroutine 123 ["
-	s := buf[10:n]
-	i := 0
-	for i < len(s) && s[i] >= '0' && s[i] <= '9' {
-		i++
-	}
-	id, _ := strconv.ParseUint(string(s[:i]), 10, 64)
-	return id
-}
+func goid() uint64 { return uint64(getg()) }
 
 func cur() (*Sched, *thread) {
 	s := active.Load()
@@ -167,6 +173,11 @@ func (s *Sched) park(t *thread, kind Kind, addr uintptr, label string, enabled f
 	if s.aborting.Load() {
 		panic(abortSignal{})
 	}
+	if s.quiet && s.alive == 1 && (enabled == nil || enabled()) {
+		// set-up code with a single controlled thread: nothing to schedule
+		s.fastSteps++
+		return
+	}
 	t.kind, t.addr, t.label, t.enabled = kind, addr, label, enabled
 	s.parked <- t
 	<-t.wake
@@ -201,6 +212,7 @@ func Go(f func()) {
 func (s *Sched) spawn(f func()) *thread {
 	t := &thread{id: len(s.threads), wake: make(chan struct{}), kind: KStart}
 	s.threads = append(s.threads, t)
+	s.alive++
 	go func() {
 		<-t.wake
 		s.byGid.Store(goid(), t)
@@ -213,6 +225,7 @@ func (s *Sched) spawn(f func()) *thread {
 				}
 			}
 			t.done = true
+			s.alive--
 			s.byGid.Delete(goid())
 			s.parked <- t
 		}()
@@ -313,6 +326,9 @@ func (s *Sched) Run() Result {
 			break
 		}
 		pick := 0
+		if s.quiet && len(cands) > 1 {
+			cands = cands[:1]
+		}
 		if len(cands) > 1 {
 			pick = s.chooser(decision, len(cands))
 			if pick < 0 || pick >= len(cands) {
@@ -325,7 +341,9 @@ func (s *Sched) Run() Result {
 			decision++
 		}
 		// select sub-choice
-		if t.kind == KSelect && len(t.selReady) > 1 {
+		if t.kind == KSelect && len(t.selReady) > 1 && s.quiet {
+			t.selPick = t.selReady[0]
+		} else if t.kind == KSelect && len(t.selReady) > 1 {
 			sp := s.chooser(decision, len(t.selReady))
 			s.Trace = append(s.Trace, Step{Enabled: len(t.selReady), Chosen: sp, Tid: t.id, Kind: KSelect, Sub: true})
 			decision++
